@@ -13,6 +13,11 @@ C27 checker.  Ops (strings hex-encoded):
         env = the SERF_* variables the script saw, sorted, NUL-joined (`-` when no script ran); q = the query's Lamport time,
         id and the responding node's name as reported by the real node (inputs to the model).
 
+  `hconf <specs>` / `hupdate <specs>` / `hfire <self> <selftags> <ev>`
+        one reloadable ScriptEventHandler per case: configure (Config.EventScripts), reload
+        (UpdateScripts, also to the empty list `_`), fire an event → `ran=<id:count,…|->`;
+        specs = `_` or `id:filterhex,…`, script `id` records its runs.
+
   `<ev>` = `mj|ml|mf|mu|mr/<member>+<member>…` with member = `name~addr~tags` (addr `a.b.c.d` or `nil`,
   tags `_` or `k:v,k:v`), `u/<name>/<ltime>/<payload>`, `q/<name>/<payload>`.
 
@@ -146,6 +151,40 @@ def field? (pre : String) (s : String) : Option String :=
 
 def okName (n : Bytes) : Bool := n.all fun c => (65 ≤ c && c ≤ 90) || (48 ≤ c && c ≤ 57) || c == 95
 
+/-- checker state: the reloadable handler of the `hconf` / `hupdate` / `hfire` ops -/
+structure St where
+  /-- model: `ScriptEventHandler` (list in effect + pending list) -/
+  hs : Option HandlerState := none
+  /-- monitor's own bookkeeping: the specs given LAST (by `hconf` or `hupdate`), per script id -/
+  lastSpecs : List (Nat × List (Filter × Bytes)) := []
+  deriving Inhabited
+
+/-- `_` or `id:filterhex,…` (`!` = a spec without `=`); the script of id `i` is the text `i` -/
+def parseIdSpecs (sp : String) : Option (List (Nat × List (Filter × Bytes))) :=
+  if sp == "_" then some [] else
+  (sp.splitOn ",").mapM fun item => match item.splitOn ":" with
+    | [i, f] => match i.toNat? with
+      | some id =>
+        let script := b (toString id)
+        if f == "!" then some (id, parseEventScript script)
+        else (bytesOfHex? f).map fun fb => (id, parseEventScript (fb ++ EQ :: script))
+      | none => none
+    | _ => none
+
+def ranOf (ran : List (Nat × Nat)) (id : Nat) : Nat := ((ran.find? (·.1 == id)).map (·.2)).getD 0
+
+def showRan (ran : List (Nat × Nat)) : String :=
+  let r := ran.filter (·.2 > 0)
+  if r.isEmpty then "-" else ",".intercalate (r.map fun p => s!"{p.1}:{p.2}")
+
+def parseRan (sr : String) : Option (List (Nat × Nat)) :=
+  if sr == "-" then some [] else
+  (sr.splitOn ",").mapM fun item => match item.splitOn ":" with
+    | [i, c] => match i.toNat?, c.toNat? with
+      | some a, some n => some (a, n)
+      | _, _ => none
+    | _ => none
+
 /-- Monitor for `parse`, stated on the implementation's entries without the model's parser:
 nothing of the specification may be lost.  Re-rendering the entries (`event`, or `event:name`
 for a non-empty name) and joining them with commas gives back the filter text before the first
@@ -178,22 +217,22 @@ def parseMonitor (v : Bytes) (impl : String) : Option (String × String) :=
           s!"filter item {hx item} parsed as event {hx e.1} name {hx e.2.1}: part of the item was lost")
       | none => none
 
-def step (_ : Unit) (op : List String) (impl : String) : LineOut Unit :=
+def step (s : St) (op : List String) (impl : String) : LineOut St :=
   match op with
   | ["parse", spec] =>
     match bytesOfHex? spec with
-    | none => { state := (), model := some "bad-op" }
+    | none => { state := s, model := some "bad-op" }
     | some v =>
       let out := ";".intercalate ((parseEventScript v).map fun p => s!"{hx p.1.event}/{hx p.1.name}/{hx p.2}")
-      { state := (), model := some out, monitor := parseMonitor v impl }
+      { state := s, model := some out, monitor := parseMonitor v impl }
   | ["invoke", ev, name, e] =>
     match bytesOfHex? ev, bytesOfHex? name, parseEvent e 0 with
     | some evb, some nb, some event =>
       let f : Filter := ⟨evb, nb⟩
       let mon := if impl == toString (matchesDoc f event) then none
         else some ("filter-match", s!"Invoke returned {impl}, the documented matching says {matchesDoc f event}")
-      { state := (), model := some (toString (invoke f event)), monitor := mon }
-    | _, _, _ => { state := (), model := some "bad-op" }
+      { state := s, model := some (toString (invoke f event)), monitor := mon }
+    | _, _, _ => { state := s, model := some "bad-op" }
   | ["run", specs, self, selftags, e, outlen, seed, exit, lim] =>
     -- implementation output fields
     let fs := impl.splitOn " "
@@ -270,10 +309,42 @@ def step (_ : Unit) (op : List String) (impl : String) : LineOut Unit :=
                   else none
                 | none => some ("malformed", impl)
               | none => some ("malformed", impl)
-      { state := (), model := some model, monitor := mon }
-    | _, _, _, _, _, _, _, _ => { state := (), model := some "bad-op" }
-  | _ => { state := (), model := some "bad-op" }
+      { state := s, model := some model, monitor := mon }
+    | _, _, _, _, _, _, _, _ => { state := s, model := some "bad-op" }
+  | ["hconf", sp] =>
+    match parseIdSpecs sp with
+    | some specs => { state := { hs := some ⟨specs.flatMap (·.2), none⟩, lastSpecs := specs }, model := some "ok" }
+    | none => { state := s, model := some "bad-op" }
+  | ["hupdate", sp] =>
+    match s.hs, parseIdSpecs sp with
+    | some h, some specs => { state := { hs := some (updateScripts h (specs.flatMap (·.2))), lastSpecs := specs }, model := some "ok" }
+    | _, _ => { state := s, model := some "bad-op" }
+  | ["hfire", self, selftags, e] =>
+    match s.hs, bytesOfHex? self, parseTags selftags, parseEvent e 0 with
+    | some h, some selfName, some selfTags, some event =>
+      let env := envOf selfName selfTags sanName event
+      let (h', started) := handleEvent h env event
+      let ids := (started.filterMap fun sc => (stringOfBytes sc).toNat?)
+      let count (l : List Nat) : List (Nat × Nat) :=
+        (l.eraseDups.map fun i => (i, l.count i))
+      let sortIds (l : List (Nat × Nat)) : List (Nat × Nat) :=
+        l.foldr (fun x acc => (acc.filter (·.1 < x.1)) ++ x :: (acc.filter (fun y => !(y.1 < x.1)))) []
+      let model := "ran=" ++ showRan (sortIds (count ids))
+      -- monitor: only ids of the specs given last may run, each as often as its entries match
+      let mon : Option (String × String) := match (field? "ran=" impl).bind parseRan with
+        | none => some ("malformed", impl)
+        | some ran =>
+          match ran.find? (fun p => p.2 > 0 && !(s.lastSpecs.any (·.1 == p.1))) with
+          | some p => some ("unconfigured-handler-ran", s!"script {p.1} ran {p.2} time(s) although the handler list given last does not contain it")
+          | none =>
+            if hasNul env then (if ran.all (·.2 == 0) then some ("nul-in-env", "the environment would contain a NUL byte: no handler ran") else none)
+            else match s.lastSpecs.find? (fun sp => ranOf ran sp.1 != (sp.2.filter fun en => matchesDoc en.1 event).length) with
+              | some sp => some ("runs-wrong", s!"script {sp.1} ran {ranOf ran sp.1} time(s), the handler list given last has {(sp.2.filter fun en => matchesDoc en.1 event).length} matching entries")
+              | none => none
+      { state := { s with hs := some h' }, model := some model, monitor := mon }
+    | _, _, _, _ => { state := s, model := some "bad-op" }
+  | _ => { state := s, model := some "bad-op" }
 
-def checker : Checker := { σ := Unit, init := (), step := step }
+def checker : Checker := { σ := St, init := {}, step := step }
 
 end SerfModel.Check.C27
